@@ -4,3 +4,6 @@ package cdi
 
 // verifPoint is a no-op unless built with the "verif" build tag.
 func verifPoint(string, string, int) {}
+
+// verifTag is only meaningful with the "verif" build tag.
+func (c *Cache) verifTag() string { return "" }
